@@ -32,6 +32,9 @@ func StringToUint160(s string) (u util.Uint160, err error) {
 	if err != nil {
 		return u, err
 	}
+	if len(b) != 1+util.Uint160Size {
+		return u, errors.New("wrong address length")
+	}
 	if b[0] != Prefix {
 		return u, errors.New("wrong address prefix")
 	}
